@@ -539,7 +539,12 @@ impl<T: Transport + 'static> SyncEngine<T> {
 
         for file in &source_files {
             // Skip files that are already completed (if resuming)
-            if !completed_paths.is_empty() && completed_paths.contains(&file.relative_path) {
+            if !completed_paths.is_empty()
+                && completed_paths.contains(&file.relative_path)
+                && resume_state.as_ref().is_some_and(|s| {
+                    file.is_dir || s.is_still_completed(&file.relative_path, &file.path, file.size)
+                })
+            {
                 tracing::debug!("Skipping completed file: {}", file.relative_path.display());
                 continue;
             }
